@@ -239,12 +239,16 @@ func c14Case(c *core.Ctx, t *dyn.TypeOps, ch, k, s, e int, caseID string) {
 			c.Eval(1)
 			c.Distinct(core.NewHash().Str(t.Name).Int(ch).Int(k).Int(s).Int(e).Int(cc).Int(i).Sum())
 			c.Sample("channel-view", d)
-			// index query
-			var bi int
-			if p, msg := core.Guard(func() { bi = view.BufferIndex(cc, i) }); p {
-				c.Violate(inst+"|panic", caseID, "BufferIndex panicked: "+msg, d)
-			} else if bi != pos {
-				c.Violate(inst+"|bufferindex", caseID, fmt.Sprintf("view of channel %d: BufferIndex(%d,%d)=%d, parent position is %d*%d+%d=%d", cc, cc, i, bi, ch, i, cc, pos), d)
+			// index query: the view reports the position of ITS channel for
+			// index i, whatever is passed as the (nominally ignored) channel
+			// argument of the method
+			for arg := 0; arg < ch; arg++ {
+				var bi int
+				if p, msg := core.Guard(func() { bi = view.BufferIndex(arg, i) }); p {
+					c.Violate(inst+"|panic", caseID, "BufferIndex panicked: "+msg, d)
+				} else if bi != pos {
+					c.Violate(inst+"|bufferindex", caseID, fmt.Sprintf("view of channel %d: BufferIndex(%d,%d)=%d, parent position is %d*%d+%d=%d", cc, arg, i, bi, ch, i, cc, pos), d)
+				}
 			}
 			c.Obs("index_queries", 1)
 			// read
